@@ -79,6 +79,8 @@ pub fn note_case(c: &serde_json::Value) {
         g.push_str(&txt[..txt.len().min(2000)]);
     });
 }
+/// hang limit in ms that a driver may lower for a sweep in which non-termination is the expected failure mode
+pub static HANG_LIMIT_OVERRIDE_MS: std::sync::atomic::AtomicU64 = std::sync::atomic::AtomicU64::new(0);
 /// (operation, case, seconds) of the longest-running in-flight API call older than `limit_ms`, if any
 pub fn hung_call(limit_ms: u64) -> Option<(String, String, u64)> {
     let now = now_ms();
